@@ -1255,12 +1255,18 @@ func (g *Gen) Container(k string, d int) *V {
 		}
 	case "m":
 		keys := g.StrKeys(n)
+		if n > 40 && r.Chance(60) {
+			keys = g.WideCollidingStrKeys(n)
+		}
 		for _, key := range keys {
 			v.Ks = append(v.Ks, key)
 			v.L = append(v.L, child())
 		}
 	case "im":
 		keys := g.IntKeys(n)
+		if n > 40 && r.Chance(60) {
+			keys = g.WideCollidingIntKeys(n)
+		}
 		for _, key := range keys {
 			v.IKs = append(v.IKs, key)
 			v.L = append(v.L, child())
@@ -1380,6 +1386,92 @@ func (g *Gen) IntKeys(n int) []int32 {
 		if !seen[k] {
 			seen[k] = true
 			out = append(out, k)
+		}
+	}
+	return out
+}
+
+// WideCollidingIntKeys: n distinct int keys for a WIDE map whose keys also share buckets of the
+// backing table at every size it grows through (101, 203, 407, 815): clusters k, k+101, k+202 …
+// (one bucket before the first growth), k + j·20503 (one bucket at 101 and at 203), k + j·8365221
+// (101·203·407), 0 and the sign-bit twins, filled up with consecutive keys.
+func (g *Gen) WideCollidingIntKeys(n int) []int32 {
+	r := g.R
+	seen := map[int32]bool{}
+	var out []int32
+	put := func(k int32) {
+		if !seen[k] && len(out) < n {
+			seen[k] = true
+			out = append(out, k)
+		}
+	}
+	base := int32(r.Intn(101))
+	if r.Chance(40) {
+		base = 0
+	}
+	steps := []int32{101, 203, 20503, 407, 8365221 % 2000000}
+	step := steps[r.Intn(len(steps))]
+	cluster := n / 2
+	if r.Chance(30) {
+		cluster = n
+	}
+	for j := 0; j < cluster; j++ {
+		k := base + int32(j)*step
+		if r.Chance(10) {
+			k |= math.MinInt32
+		}
+		put(k)
+	}
+	for j := int32(0); len(out) < n; j++ {
+		put(base + 1 + j)
+	}
+	// insertion order: clustered first, interleaved or reversed
+	switch r.Intn(3) {
+	case 1:
+		for i, j := 0, len(out)-1; i < j; i, j = i+1, j-1 {
+			out[i], out[j] = out[j], out[i]
+		}
+	case 2:
+		for i := range out {
+			j := r.Intn(i + 1)
+			out[i], out[j] = out[j], out[i]
+		}
+	}
+	return out
+}
+
+// WideCollidingStrKeys: n distinct string keys for a wide map: all strings of several collision
+// groups (equal index modulo 101 and 203), the bucket-0 strings, filled up with ordinary keys.
+func (g *Gen) WideCollidingStrKeys(n int) [][]byte {
+	r := g.R
+	seen := map[string]bool{}
+	var out [][]byte
+	put := func(k string) {
+		if !seen[k] && len(out) < n {
+			seen[k] = true
+			out = append(out, []byte(k))
+		}
+	}
+	if r.Chance(50) {
+		for _, z := range zeroStr {
+			put(z)
+		}
+	}
+	for _, grp := range collStr {
+		if len(out) >= n*3/4 {
+			break
+		}
+		for _, s := range grp {
+			put(s)
+		}
+	}
+	for j := 0; len(out) < n; j++ {
+		put("w" + strconv.Itoa(j))
+	}
+	if r.Chance(50) {
+		for i := range out {
+			j := r.Intn(i + 1)
+			out[i], out[j] = out[j], out[i]
 		}
 	}
 	return out
